@@ -348,6 +348,11 @@ func judge(c *pcase) (v verdict) {
 			v.skip = "known:c13-dce-removes-branch-of-phi"
 			return v
 		}
+		if strings.HasPrefix(after.res.Trap, "phi-incoming-undefined") && lazy && hasKnownUnemitted(cur, c.Passes, ssa) {
+			// the undefined incoming is the expression open finding C13-1 / C13-6 left outside every Emit
+			v.skip = "known:unemitted-expression(phi-incoming)"
+			return v
+		}
 		v.ok, v.msg = false, fmt.Sprintf("after %v executing the entry point traps: %s", c.Passes, after.res.Trap)
 		return v
 	case len(after.res.Poison) > 0:
@@ -593,7 +598,7 @@ func typeInArena(m *ir.Module, in ir.TypeInner) bool {
 func hasKnownUnemitted(m *ir.Module, passes []string, ssa bool) (found bool) {
 	defer func() { _ = recover() }()
 	for _, is := range irx.StrictValidateOpts(m, irx.Options{SSA: ssa}) {
-		if is.Rule != irx.RuleEmitMissing && is.Rule != irx.RuleExprOrder {
+		if is.Rule != irx.RuleEmitMissing && is.Rule != irx.RuleExprOrder && is.Rule != irx.RulePhiUndefined {
 			continue
 		}
 		switch knownShape(m, is, passes) {
@@ -642,6 +647,18 @@ func knownShape(m *ir.Module, is irx.Issue, passes []string) string {
 		// stays inside its Emit range and keeps a non-pointer ExpressionTypes entry.
 		if _, ok := kind.(ir.ExprLocalVariable); ok && sroa {
 			tag = "c13-sroa-inplace-rewrite"
+		}
+	case irx.RulePhiUndefined:
+		// C13-1 again, after mem2reg: an incoming of the phi is the Load(result local) that the inliner put
+		// where the CallResult was, outside every Emit
+		if ph, ok := kind.(ir.ExprPhi); ok && inl && is.Fn != nil {
+			for _, in := range ph.Incoming {
+				if int(in.Value) < len(is.Fn.Expressions) {
+					if ld, ok := is.Fn.Expressions[in.Value].Kind.(ir.ExprLoad); ok && isLocalVarExpr(is.Fn, ld.Pointer) {
+						tag = "c13-inline-callresult-load-unemitted"
+					}
+				}
+			}
 		}
 	case irx.RulePhiPosition:
 		// C13-5: DCE removes the (now empty) If / Switch a phi selects by.
